@@ -73,9 +73,9 @@ def spec(ctx):
                       gen_dim.harness_fn("c18_int_ops", int_arms),
                       gen_dim.harness_fn("c18_mixed_ops", conv_arms)]) + RUST_TAIL
     hs = [
-        Harness("c18_int_ops", "e2", skeletons=[(i,) for i in range(len(int_arms))],
+        Harness("c18_int_ops", "e2", tolerant=False, skeletons=[(i,) for i in range(len(int_arms))],
                 allow_fail=r"(attempt to \w+ with overflow|attempt to divide by zero|attempt to divide with overflow) @c18::c18_int_ops", clause="Time / DimensionlessInteger integer operators == i64 operators (no overflow, non-zero divisor)"),
-        Harness("c18_mixed_ops", "e2", skeletons=[(i,) for i in range(len(conv_arms))], clause="every operator yielding a Quantity == Quantity operator after converting operands"),
+        Harness("c18_mixed_ops", "e2", tolerant=False, skeletons=[(i,) for i in range(len(conv_arms))], clause="every operator yielding a Quantity == Quantity operator after converting operands"),
         Harness("c18_conversions", "e2", clause="i64 identity; Time/DimensionlessInteger <-> Quantity formulas; other units rejected (all i8^2)"),
         Harness("c18_int_order", "e1", clause="ordering / equality / default of the integer newtypes"),
     ]
